@@ -12,9 +12,13 @@ import time
 
 VERIF = os.path.dirname(os.path.dirname(os.path.abspath(__file__)))
 LEAN = os.path.join(VERIF, "lean")
-HARNESS = os.path.join(VERIF, "harness")
 CACHE = os.path.join(VERIF, ".cache")
-TARGET = os.path.join(CACHE, "target")
+# Overridable for mutation experiments on a scratch copy of /repo (tools/mutcheck.sh); the
+# registered checks never set these, so they always build against /repo itself.
+REPO = os.environ.get("VERIF_REPO", "/repo")
+HARNESS = os.environ.get("VERIF_HARNESS_DIR", os.path.join(VERIF, "harness"))
+TARGET = os.environ.get("VERIF_TARGET_DIR", os.path.join(CACHE, "target"))
+OUT = os.environ.get("VERIF_OUT_DIR", VERIF)
 ALLOWED_AXIOMS = {"propext", "Classical.choice", "Quot.sound"}
 FORBIDDEN = re.compile(r"\bsorry\b|\badmit\b|^\s*axiom\s|native_decide|bv_decide|implemented_by|\bunsafe\s|maxHeartbeats\s+0\b", re.M)
 
@@ -174,7 +178,7 @@ class Check:
         cmd = ["cargo", "build", "--offline", "--quiet"]
         for b in bins:
             cmd += ["--bin", b]
-        with Lock("cargo"):
+        with Lock("cargo-" + hashlib.sha1(TARGET.encode()).hexdigest()[:8]):
             rc, out, err = sh(cmd, cwd=HARNESS, env=env, timeout=3000)
         if rc != 0:
             # the harness could not be built against the current /repo tree: correspondence cannot run
@@ -323,8 +327,8 @@ class Check:
             "wall_s": round(wall, 2),
             "violations": len(fresh),
         }
-        os.makedirs(os.path.join(VERIF, "evidence"), exist_ok=True)
-        with open(os.path.join(VERIF, "evidence", self.prop + ".json"), "w") as f:
+        os.makedirs(os.path.join(OUT, "evidence"), exist_ok=True)
+        with open(os.path.join(OUT, "evidence", self.prop + ".json"), "w") as f:
             json.dump(ev, f, indent=1)
         for kid in sorted(set(k["id"] for k, _ in self.known_hits)):
             k = [k for k, _ in self.known_hits if k["id"] == kid][0]
@@ -335,8 +339,8 @@ class Check:
                 print("note: known finding %s did not reproduce in this run (%s)" % (k["id"], self.tier))
         if fresh:
             confirmed = [f for f in fresh if f.get("oracle_confirmed")]
-            os.makedirs(os.path.join(VERIF, "replays"), exist_ok=True)
-            rp = os.path.join(VERIF, "replays", "%s-%s-seed%d.json" % (self.prop, self.tier, self.seed))
+            os.makedirs(os.path.join(OUT, "replays"), exist_ok=True)
+            rp = os.path.join(OUT, "replays", "%s-%s-seed%d.json" % (self.prop, self.tier, self.seed))
             broken = sorted(set("%s:%s" % (f["kind"], f["where"]) for f in fresh))
             with open(rp, "w") as f:
                 json.dump(
